@@ -25,6 +25,7 @@ type thread struct {
 }
 
 type timer struct {
+	vc       vclock // race monitor: the creator's clock
 	id       int
 	deadline int64
 	fired    bool
@@ -83,6 +84,7 @@ func spawnThread(fn value, args []value, from string) {
 		name = f.Fn.String()
 	}
 	t := R.newThread(name)
+	R.raceSpawn(t.id)
 	R.startThread(t, func() { call(nil, 0, fn, args) })
 }
 
@@ -197,6 +199,9 @@ func (r *Run) pickNext(me *thread, finished bool) *thread {
 		}
 		en := r.enabledOthers(me)
 		tms := r.fireable()
+		if !r.cfg.TimerPreempt && len(en) > 0 {
+			tms = nil // timers only fire when nothing else can run
+		}
 		n := len(en) + len(tms)
 		if n == 0 {
 			r.deadlock(me, finished)
@@ -228,6 +233,13 @@ func (r *Run) fireTimer(tm *timer) {
 		r.now = tm.deadline
 	}
 	r.timerFires++
+	if r.race != nil {
+		r.race.override = tm.vc
+		if r.race.override == nil {
+			r.race.override = vclock{}
+		}
+		defer func() { r.race.override = nil }()
+	}
 	tm.fire()
 }
 
@@ -375,6 +387,7 @@ func sendReady(c *chanObj) bool {
 }
 
 func doRecv(c *chanObj) (value, bool) {
+	R.raceSync(c)
 	if len(c.buf) > 0 {
 		v := c.buf[0]
 		c.buf = c.buf[1:]
@@ -402,6 +415,7 @@ func doRecv(c *chanObj) (value, bool) {
 }
 
 func doSend(c *chanObj, v value) {
+	R.raceSync(c)
 	if c.closed {
 		R.lastPanicMsg = "panic: send on closed channel"
 		panic(targetPanic{iface{I.runtimeErrorString, "send on closed channel"}})
@@ -431,6 +445,7 @@ func chanClose(v value) {
 		panic(targetPanic{iface{I.runtimeErrorString, "close of closed channel"}})
 	}
 	c.closed = true
+	R.raceRelease(c)
 	for len(c.recvq) > 0 {
 		w := c.recvq[0]
 		i := caseIndex(w, c, false)
@@ -478,6 +493,9 @@ func selectOn(cases []waitCase, blocking bool, what string) (int, value, bool) {
 		if cs.ch == nil {
 			continue
 		}
+		// race monitor: whoever completes the operation later must see everything this
+		// thread did before it started waiting
+		R.raceRelease(cs.ch)
 		if cs.send {
 			cs.ch.sendq = append(cs.ch.sendq, w)
 		} else {
@@ -486,6 +504,9 @@ func selectOn(cases []waitCase, blocking bool, what string) (int, value, bool) {
 	}
 	desc := what
 	blockUntil(func() bool { return w.done }, desc)
+	if w.chosen >= 0 && w.chosen < len(cases) && cases[w.chosen].ch != nil {
+		R.raceSync(cases[w.chosen].ch) // the party that completed the operation published its clock on the channel
+	}
 	if w.closedSend {
 		panic(targetPanic{iface{I.runtimeErrorString, "send on closed channel"}})
 	}
@@ -580,6 +601,7 @@ func mutexLock(p *value, what string) {
 	blockUntil(func() bool { return !m.locked && m.readers == 0 }, what)
 	m.locked = true
 	m.writer = R.cur
+	R.raceAcquire(m)
 }
 
 func mutexUnlock(p *value, what string) {
@@ -589,6 +611,7 @@ func mutexUnlock(p *value, what string) {
 		R.violation("panic", "fatal: sync: unlock of unlocked mutex", what, "", nil)
 		panic(runAbort{"unlock of unlocked mutex"})
 	}
+	R.raceRelease(m)
 	m.locked = false
 	m.writer = nil
 	// no scheduling point after a release: switching here is equivalent to
@@ -600,6 +623,7 @@ func mutexRLock(p *value, what string) {
 	schedPoint(what)
 	blockUntil(func() bool { return !m.locked }, what)
 	m.readers++
+	R.raceAcquire(m)
 }
 
 func mutexRUnlock(p *value, what string) {
@@ -608,6 +632,7 @@ func mutexRUnlock(p *value, what string) {
 		R.violation("panic", "fatal: sync: RUnlock of unlocked RWMutex", what, "", nil)
 		panic(runAbort{"runlock of unlocked"})
 	}
+	R.raceRelease(m)
 	m.readers--
 }
 
